@@ -38,8 +38,9 @@ import (
 
 type LookupEntry struct {
 	Domain  string `json:"domain"` // hex
-	Err     bool   `json:"err,omitempty"`
-	Name    string `json:"name,omitempty"` // hex
+	Err     bool   `json:"err,omitempty"`    // the lookup returns a non-nil error
+	NoDest  bool   `json:"nodest,omitempty"` // the lookup returns a nil *Dest
+	Name    string `json:"name,omitempty"`   // hex
 	Home    bool   `json:"home,omitempty"`
 	Forward string `json:"forward,omitempty"` // hex
 }
@@ -229,9 +230,16 @@ func runReject(r *hx.Rng) *RejectCase {
 	return &RejectCase{Name: hx16(name), IsIP: net.ParseIP(name) != nil, Rejected: sniproxy.VerifIsRejectedDomain(name)}
 }
 
-func runRoute(r *hx.Rng) *RouteCase {
+// runRoute: corpus 0 = random; 1 = the lookup returns the connected endpoint
+// together with an error; 2 = the lookup returns (nil, nil); 3 = a Home
+// destination together with an error; 4 = a forward together with an error.
+func runRoute(r *hx.Rng, corpus int) *RouteCase {
 	c := &RouteCase{HasLookup: r.Intn(12) != 0, HasHome: r.Bool()}
 	sni := genName(r)
+	if corpus != 0 {
+		c.HasLookup = true
+		sni = []string{"", "suspended.example", "void.example", "suspended-home.example", "suspended-fwd.example"}[corpus]
+	}
 	// A server name with a trailing dot cannot be carried by a ClientHello
 	// that crypto/tls accepts; the raw names go through the "reject" stream.
 	for strings.HasSuffix(sni, ".") {
@@ -240,6 +248,9 @@ func runRoute(r *hx.Rng) *RouteCase {
 	c.SNI = hx16(sni)
 	c.IsIP = net.ParseIP(sni) != nil
 	neps := r.Intn(5)
+	if corpus != 0 {
+		neps = 3
+	}
 	var eps []string
 	for i := 0; i < neps; i++ {
 		eps = append(eps, fmt.Sprintf("/ep%d", r.Intn(6)))
@@ -257,15 +268,23 @@ func runRoute(r *hx.Rng) *RouteCase {
 	if c.Endpoints == nil {
 		c.Endpoints = []string{}
 	}
+	someEndpoint := func() string {
+		// mostly an endpoint that is connected, so that a refused name that is
+		// routed anyway shows up as a dial
+		if len(ueps) > 0 && r.Intn(4) != 0 {
+			return ueps[r.Intn(len(ueps))]
+		}
+		return fmt.Sprintf("/ep%d", r.Intn(6))
+	}
 	table := map[string]LookupEntry{}
-	addEntry := func(domain string) {
+	addEntry := func(domain string, kind int) {
 		if _, ok := table[domain]; ok {
 			return
 		}
 		e := LookupEntry{Domain: hx16(domain)}
-		switch r.Intn(8) {
-		case 0:
-			e.Err = true
+		switch kind {
+		case 0: // (nil, err)
+			e.Err, e.NoDest = true, true
 		case 1:
 			e.Home = true
 			e.Name = hx16("~")
@@ -275,17 +294,31 @@ func runRoute(r *hx.Rng) *RouteCase {
 		case 3: // both set: Home wins
 			e.Home = true
 			e.Forward = hx16("127.0.0.1:9")
+		case 4: // (dest, err): the owner is resolved but the name is refused
+			e.Err = true
+			e.Name = hx16(someEndpoint())
+		case 5: // (nil, nil)
+			e.NoDest = true
+		case 6: // (home dest, err)
+			e.Err, e.Home = true, true
+			e.Name = hx16("~")
+		case 7: // (forward dest, err)
+			e.Err = true
+			e.Forward = hx16(fmt.Sprintf("127.0.0.1:%d", 1000+r.Intn(100)))
 		default:
-			e.Name = hx16(fmt.Sprintf("/ep%d", r.Intn(6)))
+			e.Name = hx16(someEndpoint())
 		}
 		table[domain] = e
 		c.Table = append(c.Table, e)
 	}
-	if r.Intn(5) != 0 {
-		addEntry(sni)
+	switch {
+	case corpus != 0:
+		addEntry(sni, []int{0, 4, 5, 6, 7}[corpus])
+	case r.Intn(5) != 0:
+		addEntry(sni, r.Intn(14))
 	}
 	for i, n := 0, r.Intn(4); i < n; i++ {
-		addEntry(genName(r))
+		addEntry(genName(r), r.Intn(14))
 	}
 	if c.Table == nil {
 		c.Table = []LookupEntry{}
@@ -295,10 +328,18 @@ func runRoute(r *hx.Rng) *RouteCase {
 	if c.HasLookup {
 		cfg.Lookup = func(domain string) (*sniproxy.Dest, error) {
 			e, ok := table[domain]
-			if !ok || e.Err {
+			if !ok {
 				return nil, fmt.Errorf("bad domain %q", domain)
 			}
-			return &sniproxy.Dest{Name: unhex(e.Name), Home: e.Home, ForwardTCP: unhex(e.Forward)}, nil
+			var d *sniproxy.Dest
+			if !e.NoDest {
+				d = &sniproxy.Dest{Name: unhex(e.Name), Home: e.Home, ForwardTCP: unhex(e.Forward)}
+			}
+			var err error
+			if e.Err {
+				err = fmt.Errorf("domain %q is refused", domain)
+			}
+			return d, err
 		}
 	}
 
@@ -311,7 +352,17 @@ func runRoute(r *hx.Rng) *RouteCase {
 		c.Dialed = true
 		c.DialName = hx16(name)
 		c.DialAddr = addr
-		d := sniproxy.VerifServerDial(cfg, c.HasHome, true, ueps, name, addr)
+		var d string
+		func() {
+			// a panic inside Server.dial is an observation (in the server it
+			// ends the process: the connection goroutine has no recover)
+			defer func() {
+				if e := recover(); e != nil {
+					d = "panic:" + fmt.Sprint(e)
+				}
+			}()
+			d = sniproxy.VerifServerDial(cfg, c.HasHome, true, ueps, name, addr)
+		}()
 		c.Decision = d
 		if i := strings.Index(d, ":"); i >= 0 {
 			c.Decision, c.DecisionArg = d[:i], hx16(d[i+1:])
@@ -646,6 +697,16 @@ func runE2E(r *hx.Rng, mode string, neps, nconns int) *E2E {
 		if domain == "ghost.example" {
 			return &sniproxy.Dest{Name: "/ghost"}, nil
 		}
+		// The four shapes of a lookup result: the owner is resolved but the
+		// name is refused (destination AND error), and neither of the two.
+		switch domain {
+		case "suspended.example":
+			return &sniproxy.Dest{Name: "/ep0"}, fmt.Errorf("domain %q is suspended", domain)
+		case "expired.example":
+			return &sniproxy.Dest{Name: fmt.Sprintf("/ep%d", neps-1)}, fmt.Errorf("domain %q is expired", domain)
+		case "void.example":
+			return nil, nil
+		}
 		// Names that hostConn must have rejected never get here; if they do,
 		// route them to a live endpoint so that the leak shows at a backend.
 		if domain == "" || net.ParseIP(domain) != nil || strings.HasSuffix(domain, ".after.blue") ||
@@ -692,7 +753,8 @@ func runE2E(r *hx.Rng, mode string, neps, nconns int) *E2E {
 		chunks                [][]byte
 		hello                 []byte
 	}
-	invalid := []string{"", "10.1.2.3", "::1", "x.after.blue", "deep.x.speedy.red", "ghost.example", "refused.example", "site99.example"}
+	invalid := []string{"", "10.1.2.3", "::1", "x.after.blue", "deep.x.speedy.red", "ghost.example", "refused.example", "site99.example",
+		"suspended.example", "expired.example", "void.example"}
 	var plans []plan
 	for i := 0; i < nconns; i++ {
 		p := plan{tag: fmt.Sprintf("conn-%d-%x", i, r.U64()), sni: true}
@@ -852,6 +914,9 @@ func plan(seed uint64, n int, e2eRounds int, only string) []spec {
 		return ss
 	}
 	ss = append(ss, spec{stream: "regen", seed: r.U64()}) // corpus: stale side connection after re-registration
+	for k := 1; k <= 4; k++ { // corpus: lookup results (dest, err), (nil, nil), (home, err), (forward, err)
+		ss = append(ss, spec{stream: "route", seed: r.U64(), a: k})
+	}
 	for i := 0; i < e2eRounds; i++ {
 		mode := e2e.Modes[i%3]
 		neps := 2 + r.Intn(5)
@@ -896,7 +961,7 @@ func runSpec(i int, s spec) (c Case) {
 	case "reject":
 		c.Reject = runReject(r)
 	case "route":
-		c.Route = runRoute(r)
+		c.Route = runRoute(r, s.a)
 	case "office":
 		c.Office = runOffice(r, s.a)
 	case "conns":
